@@ -70,6 +70,24 @@ Example C16_example_split :
   ok [mk false [f 10; f 11]] = true /\ ok [mk true [f 11]; mk false [f 10]] = true.
 Proof. vm_compute. repeat split; try reflexivity; discriminate. Qed.
 
+(* One load whose definitions lie in several files read in any order (Root.ParseFS reads the files
+   it matched in the order of a Go map and parses their concatenation): acceptance and the schema
+   are those of the definitions in any one order. *)
+Theorem C16_files_read_in_any_order :
+  forall (items : list item) (files files' : list (list item)),
+    Permutation (concat files) items -> Permutation files files' ->
+    ok (concat files') = ok items /\
+    Permutation (op_roots (concat files')) (op_roots items) /\
+    Permutation (fl_bases (flatten (concat files'))) (fl_bases (flatten items)).
+Proof.
+  intros items files files' Hc Hp.
+  assert (P : Permutation (concat files') items).
+  { eapply perm_trans; [apply perm_concat, Permutation_sym; exact Hp|exact Hc]. }
+  split; [now apply ok_perm|]. split; [now apply op_roots_perm|].
+  now destruct (flatten_components_perm _ _ P) as [B _].
+Qed.
+Print Assumptions C16_files_read_in_any_order.
+
 (* The order in which a root lists its types and directives (Root.Types(), Root.Directives(),
    __schema{types directives}): by rank, then by name in byte order — a function of the set of
    definitions, whatever the order or partition in which they arrived.  `coherent`: one definition
